@@ -115,7 +115,7 @@ theorem FIe_threadStep (N : Nat) (links : List (Nat × List Tgt)) (hwf : TreeWF 
         have hw2 : w < 2 := hco.2.2.1
         cases t with
         | sink k =>
-          rw [gWrite_sink g _ _ _ k (by rw [hgl]; exact hl1)] at hs
+          rw [gWrite_sink g _ _ _ k (by rw [hgl]; exact hl1) hco.2.1.2.1] at hs
           simp only [if_true, hn] at hs
           cases hst : Node.step nd (.op 0 true) with
           | none => simp [hst] at hs
@@ -139,7 +139,7 @@ theorem FIe_threadStep (N : Nat) (links : List (Nat × List Tgt)) (hwf : TreeWF 
           | none => have := (h.nodesLen m).mpr hmN; rw [hm] at this; cases this
           | some ndm =>
             obtain ⟨ndm', hpst, hprel⟩ := push_node (ss m) ndm g.next q.pay (h.rel m ndm hm)
-            rw [gWrite_node g _ _ _ m 0 ndm ndm' [] (by rw [hgl]; exact hl1) hm hpst] at hs
+            rw [gWrite_node g _ _ _ m 0 ndm ndm' [] (by rw [hgl]; exact hl1) hm hpst hco.2.1.2.1] at hs
             have hn1 : getNode (setNode g.nodes m ndm') n = some nd := by
               rw [getNode_set g m ndm ndm' hm n]; simp only [hne, if_false]; exact hn
             simp only [if_true, hn1] at hs
